@@ -38,6 +38,24 @@ type T2 struct {
 	Ok   bool
 }
 
+type nInt int
+type nBool bool
+type nFloat float64
+type nStr string
+type nU8 uint8
+type nStruct struct{ A int }
+type nErr struct{ m string }
+
+func namedText(kind string, v interface{}) string { return fmt.Sprintf("<%s %v&>", kind, v) }
+
+func (n nInt) String() string    { return namedText("int", int(n)) }
+func (n nBool) String() string   { return namedText("bool", bool(n)) }
+func (n nFloat) Error() string   { return namedText("float", float64(n)) }
+func (n nStr) String() string    { return namedText("str", string(n)) }
+func (n nU8) Error() string      { return namedText("u8", uint8(n)) }
+func (n nStruct) String() string { return namedText("struct", n.A) }
+func (n nErr) Error() string     { return n.m }
+
 // T3 carries methods (value and pointer receivers, fixed and variadic); opaque to the model
 type T3 struct {
 	Pre string
@@ -81,11 +99,12 @@ func decodeVal(x *sx.Sexp) interface{} {
 			if isNil {
 				return []interface{}(nil)
 			}
-			out := make([]interface{}, 0, len(x.Xs)-3)
+			// spare capacity holding sentinels: nothing beyond the length may ever be reached
+			out := make([]interface{}, 0, len(x.Xs)-3+2)
 			for _, e := range x.Xs[3:] {
 				out = append(out, decodeVal(e))
 			}
-			return out
+			return append(out, "BEYOND<", 777)[:len(out)]
 		}
 		// typed slice: element kind from the first element (generators keep them homogeneous)
 		if len(x.Xs) == 3 {
@@ -100,13 +119,13 @@ func decodeVal(x *sx.Sexp) interface{} {
 			for _, e := range x.Xs[3:] {
 				out = append(out, decodeVal(e).(string))
 			}
-			return out
+			return append(out, "BEYOND<", "B2")[:len(out)]
 		default:
 			out := []int{}
 			for _, e := range x.Xs[3:] {
 				out = append(out, decodeVal(e).(int))
 			}
-			return out
+			return append(out, 777, 778)[:len(out)]
 		}
 	case "smap":
 		iface := x.Xs[1].A == "true"
@@ -187,6 +206,29 @@ func decodeVal(x *sx.Sexp) interface{} {
 			return &t
 		}
 		panic("unsupported pointer target")
+	case "named":
+		// named types whose printed form comes from a method, whatever their kind
+		v := decodeVal(x.Xs[2])
+		switch x.Xs[1].A {
+		case "int":
+			return nInt(v.(int))
+		case "bool":
+			return nBool(v.(bool))
+		case "float":
+			return nFloat(v.(float64))
+		case "str":
+			return nStr(v.(string))
+		case "u8":
+			return nU8(uint8(v.(int)))
+		case "struct":
+			return nStruct{A: v.(int)}
+		case "pint":
+			n := nInt(v.(int))
+			return &n
+		case "err":
+			return nErr{v.(string)}
+		}
+		panic("unknown named type " + x.Xs[1].A)
 	case "iface":
 		return decodeVal(x.Xs[1])
 	case "func", "jfunc":
